@@ -236,9 +236,41 @@ def build(n, timecode=False, send_timing=True):
         return _build(n, timecode, send_timing)
 
 
+class _SocketModuleForInit:
+    """stands for the `socket` module while the real MessageManager.__init__ runs: socket() hands out the listening recorder,
+    every constant comes from the real module"""
+
+    def __init__(self, conn):
+        self._conn = conn
+
+    def socket(self, *a, **k):
+        return self._conn
+
+    def __getattr__(self, k):
+        return getattr(_socket, k)
+
+
+def _real_init(mm, H, timecode, send_timing, lc):
+    """run the repository's own MessageManager.__init__ on mm (listening socket, logger and header class stubbed), so that every
+    attribute the current source initialises exists with its real initial value - the fields the harnesses model are then
+    overwritten below.  Without this a change that merely adds an attribute in __init__ would surface as an AttributeError,
+    i.e. as an alarm about nothing."""
+    saved = (M.socket, M.RTMALogger, M.get_header_cls)
+    lc.bind = lc.listen = lc.setsockopt = lambda *a, **k: None
+    M.socket = _SocketModuleForInit(lc)
+    M.RTMALogger = lambda *a, **k: NullLogger()
+    M.get_header_cls = lambda *a, **k: H
+    try:
+        M.MessageManager.__init__(mm, "", 7111, timecode=timecode, send_msg_timing=send_timing)
+    finally:
+        M.socket, M.RTMALogger, M.get_header_cls = saved
+
+
 def _build(n, timecode, send_timing):
     H = header_class(timecode)
     mm = object.__new__(M.MessageManager)
+    lc0 = FakeConn(-1)
+    _real_init(mm, H, timecode, send_timing, lc0)
     mm._keep_running = False
     mm.ip_address = ""
     mm.port = 7111
@@ -249,7 +281,7 @@ def _build(n, timecode, send_timing):
     mm._debug = False
     mm.b_send_msg_timing = send_timing
     mm._logger = NullLogger()
-    lc = FakeConn(-1)
+    lc = lc0
     mm.listen_socket = lc
     mm.modules = {}
     mm.next_dynamic_mod_id_offset = 0
